@@ -167,6 +167,34 @@ func Generate(r *vh.Rand, w *World, p Params) ([]Op, Cfg) {
 	return ops, Cfg{NKeys: p.NKeys, HLo: lo, HHi: maxH + 2, SHHi: maxSH + 2, NIn: p.NIn, NKn: p.NKn}
 }
 
+// GenerateWrites builds a history of p.Blocks good writes only (heights Base, Base+1, ...).
+func GenerateWrites(r *vh.Rand, w *World, p Params) ([]Op, Cfg) {
+	var ops []Op
+	spec := &Spec{}
+	nextSuf := p.Base
+	for i := 0; i < p.Blocks; i++ {
+		h := p.Base + int64(i)
+		sh := BlockShape{H: h}
+		for _, k := range subset(r, p.NKeys-2, 3) {
+			sh.Keys = append(sh.Keys, k+2)
+			sh.KeyOps = append(sh.KeyOps, subset(r, p.NIn, 2))
+		}
+		if h >= nextSuf {
+			sh.Suf = true
+			sh.SH = spec.MaxSufHeight() + 1
+			nextSuf = h + int64(r.Range(2, 5))
+		}
+		if i == 0 || r.Chance(1, 5) {
+			sh.Pol = true
+		}
+		sh.Known = subset(r, p.NKn, 2)
+		b := w.NewBlock(sh)
+		spec.Write(b)
+		ops = append(ops, Op{T: "W", B: b})
+	}
+	return ops, Cfg{NKeys: p.NKeys, HLo: -1, HHi: p.Base + int64(p.Blocks) + 1, SHHi: spec.MaxSufHeight() + 2, NIn: p.NIn, NKn: p.NKn}
+}
+
 // StepResult: what the implementation did at one step.
 type StepResult struct {
 	Ok    bool
